@@ -56,7 +56,9 @@ class C01Mgr(MgrBase):
         # two peers complete the same piece (end-game duplicate), then one leaves while piece 1 is unfinished
         ops = ["add 1", "init 1", "bf 1 11", "add 2", "init 2", "bf 2 11", "unchoke 1", "unchoke 2", "done 1", "done 2", "done 1",
                "kill 2", "done 1", "kill 1"]
-        return [self.mk("prod", 2, 4, 7, ops, "completion")]
+        # candidates left over from one tracker answer (more listed than free slots) are contacted at the next one
+        left = sum([["add %d" % k, "init %d" % k, "bf %d 11" % k] for k in range(1, 9)], []) + ["tresp 31,32,33,34", "tresp 35", "tresp -"]
+        return [self.mk("prod", 2, 4, 7, ops, "completion"), self.mk("prod", 2, 4, 7, left, "tracker-leftovers")]
 
     def gen(self, rng, tier):
         k = {"quick": 200, "thorough": 5000, "search": 1200}.get(tier, 200)
